@@ -264,7 +264,8 @@ def eval_img(ctx, case):
             parts.append(k)
         else:
             parts.append(f'{k}="' + v.replace("&", "&amp;").replace('"', "&quot;").replace("<", "&lt;").replace(">", "&gt;") + '"')
-    tag = "<img " + (f'src="{src}" ' if src is not None else "") + " ".join(parts) + (" />" if case.get("selfclose") else ">")
+    tn, sn = {"lower": ("img", "src"), "upper": ("IMG", "SRC"), "mixed": ("Img", "sRc")}[case.get("tagcase", "lower")]
+    tag = f"<{tn} " + (f'{sn}="{src}" ' if src is not None else "") + " ".join(parts) + (" />" if case.get("selfclose") else ">")
     opts = [(k, (v or "")) for k, v in attrs if k in ATTRS_IMG]
     # html semantics: the first occurrence of a duplicated attribute wins in browsers, html.parser keeps the last in dict(): avoid duplicates in the generator
     dlines = ["```{image} " + (src or ""), "---"] + [f"{k}: {yaml_q(v)}" for k, v in sorted(opts)] + ["---", "```"]
@@ -316,7 +317,8 @@ def eval_adm(ctx, case):
         inner.append(f"<p>{p}</p>")
     if bare:
         inner.append(bare)
-    html_doc = f"<div {attrs}>\n" + "\n".join(inner) + "\n</div>\n"
+    dv = {"lower": "div", "upper": "DIV", "mixed": "Div"}[case.get("tagcase", "lower")]
+    html_doc = f"<{dv} {attrs.replace('class=', 'CLASS=') if dv == 'DIV' else attrs}>\n" + "\n".join(inner) + f"\n</{dv}>\n"
     body = "\n\n".join(list(paras) + ([bare] if bare else []))
     opts = [("class", cls)] + ([("name", name)] if name is not None else [])
     dlines = ["````{admonition} " + (title if title is not None else "Note"), "---"] + [f"{k}: {yaml_q(v)}" for k, v in sorted(opts)] + ["---", "", body, "````"]
@@ -445,7 +447,7 @@ def case_img(R):
         if R.random() < 0.07:
             v = None
         attrs.append([k, v])
-    return {"kind": "img", "attrs": attrs, "src": R.choice(["a.png", "a.png", "p/q r.png", "https://e.org/i.png?x=1&y=2", "", None, "ünï.png"]), "pos": R.choice(["block", "inline"]), "selfclose": R.random() < 0.3, "adm": R.random() < 0.3}
+    return {"kind": "img", "attrs": attrs, "src": R.choice(["a.png", "a.png", "p/q r.png", "https://e.org/i.png?x=1&y=2", "", None, "ünï.png"]), "pos": R.choice(["block", "inline"]), "selfclose": R.random() < 0.3, "adm": R.random() < 0.3, "tagcase": R.choice(["lower", "lower", "upper", "mixed"])}
 
 
 def case_adm(R):
@@ -453,7 +455,7 @@ def case_adm(R):
     bare = R.choice([None, None, "bare **text** &#42;x&#42;", "- item one\n- item two"]) if paras else R.choice(["bare **text**", "- item one\n- item two", "x &#95;y&#95;"])
     title = R.choice([None, "My *title*", "T &amp; U", "&#42;T&#42;", "plain"])
     return {"kind": "adm", "classes": R.choice(["admonition", "admonition note", "warning admonition x-y", "admonition  two  spaces"]), "name": R.choice([None, None, "adm-name", "Name With Caps", "n#1", 'q"uote']), "title": title,
-            "title_tag": R.choice(["p", "div"]), "title_class": R.choice(["title", "admonition-title", "title extra"]), "paras": paras, "bare": bare, "img": R.random() < 0.3}
+            "title_tag": R.choice(["p", "div"]), "title_class": R.choice(["title", "admonition-title", "title extra"]), "paras": paras, "bare": bare, "img": R.random() < 0.3, "tagcase": R.choice(["lower", "lower", "upper", "mixed"])}
 
 
 def gfm_cases():
